@@ -7,6 +7,7 @@
 #include <signal.h>
 #include <sys/types.h>
 #include <sys/wait.h>
+#include <sys/resource.h>
 
 #ifdef __cplusplus
 extern "C" {
@@ -20,6 +21,13 @@ extern "C" {
 static struct { char oid[32]; object_t *ob; } vh_objs[VH_MAXOBJ];
 static int vh_nobj = 0;
 static int vh_case_timeout = 30;
+/* a tree on which cases hang (a driver that spins) must not make a check run for hours or fill memory: after this
+ * many case timeouts the remaining cases of the batch are reported as `notrun slow-tree` (the engine drops them);
+ * a child may write at most VH_MAX_OUT bytes to one file and at most VH_MAX_RELAY trace bytes are relayed */
+static int vh_max_timeouts = 3;
+static int vh_timeouts = 0;
+#define VH_MAX_OUT (256L * 1024 * 1024)
+#define VH_MAX_RELAY (16L * 1024 * 1024)
 
 object_t *vh_obj (const char *oid)
 {
@@ -422,12 +430,21 @@ static void relay_output (const char *path, const char *keep)
   char summary[512] = "";
   if (!f)
     return;
+  long relayed = 0;
   while ((n = getline (&line, &cap, f)) >= 0)
     {
       if (k)
         fputs (line, k);
       if (!strncmp (line, "VL ", 3))
-        fputs (line + 3, stdout);
+        {
+          if (relayed <= VH_MAX_RELAY)
+            {
+              fputs (line + 3, stdout);
+              relayed += n;
+              if (relayed > VH_MAX_RELAY)
+                fputs ("trace-truncated\n", stdout);
+            }
+        }
       else if (!summary[0] && (strstr (line, "ERROR: AddressSanitizer") || strstr (line, "runtime error:")
                                || strstr (line, "ERROR: LeakSanitizer")))
         {
@@ -488,6 +505,8 @@ int vh_main (int argc, char **argv, vh_handler_t extra)
         keepdir = argv[++i];
       else if (!strcmp (argv[i], "--timeout") && i + 1 < argc)
         vh_case_timeout = atoi (argv[++i]);
+      else if (!strcmp (argv[i], "--max-timeouts") && i + 1 < argc)
+        vh_max_timeouts = atoi (argv[++i]);
     }
   if (!conf)
     {
@@ -513,6 +532,15 @@ int vh_main (int argc, char **argv, vh_handler_t extra)
             cmds = (char **) realloc (cmds, sizeof (char *) * (cap = cap ? cap * 2 : 64));
           cmds[ncmd++] = strdup (line);
         }
+      if (vh_max_timeouts > 0 && vh_timeouts >= vh_max_timeouts)
+        {
+          printf ("case %s\nnotrun slow-tree\nend\n", id);
+          fflush (stdout);
+          for (int i = 0; i < ncmd; i++)
+            free (cmds[i]);
+          free (cmds);
+          continue;
+        }
       char outpath[512];
       snprintf (outpath, sizeof outpath, "%s/vh-%d.out", scratch, (int) getpid ());
       fflush (stdout);
@@ -523,6 +551,14 @@ int vh_main (int argc, char **argv, vh_handler_t extra)
           dup2 (fd, 2);
           close (fd);
           alarm (vh_case_timeout);
+          {
+            struct rlimit rl;
+            if (getrlimit (RLIMIT_FSIZE, &rl) == 0 && (rl.rlim_cur == RLIM_INFINITY || rl.rlim_cur > (rlim_t) VH_MAX_OUT))
+              {
+                rl.rlim_cur = (rlim_t) VH_MAX_OUT;
+                setrlimit (RLIMIT_FSIZE, &rl);
+              }
+          }
           for (int i = 0; i < ncmd; i++)
             {
               if (cmds[i][0] == '#' || !cmds[i][0])
@@ -545,7 +581,10 @@ int vh_main (int argc, char **argv, vh_handler_t extra)
       if (WIFSIGNALED (status))
         {
           if (WTERMSIG (status) == SIGALRM)
-            printf ("crash timeout\n");
+            {
+              printf ("crash timeout\n");
+              vh_timeouts++;
+            }
           else
             printf ("crash signal %d\n", WTERMSIG (status));
         }
